@@ -229,7 +229,9 @@ for $name, $val in $part_out.items():
     if len(outs) != 1:
         return
     e = outs[0]
-    parts = [x for x in ast.walk(fd) if isinstance(x, ast.Call)
+    # what the part is built from, on the normal form: values held in locals, or built
+    # by a loop instead of a comprehension, are what they stand for
+    parts = [x for x in ast.walk(m.normal(fd)) if isinstance(x, ast.Call)
              and ast.unparse(x.func) == "DistributedGraphPart"]
     if len(parts) != 1:
         raise AnalysisError("anchor vanished: DistributedGraphPart(...) construction")
@@ -246,7 +248,9 @@ for $name, $val in $part_out.items():
             "output-names-and-outputs-from-one-mapping", where,
             "a part's output_names and the entries added to name_to_output do not come "
             "from the same mapping of that part")
-    c.check(kw_is("needed_pids", "frozenset({$p - 1} if $p else {})"), "R09-NAMES", name,
+    c.check(kw_is("needed_pids", "frozenset({$p - 1} if $p else {})")
+            or kw_is("needed_pids", "frozenset({$p - 1}) if $p else frozenset()"),
+            "R09-NAMES", name,
             "parts-form-a-chain", where,
             "a part no longer depends on exactly its predecessor (acyclic part order)")
     c.check(kw_is("user_input_names", "frozenset($repl.user_input_names)")
